@@ -15,8 +15,12 @@ const MODES: [&str; 9] = ["ceil", "floor", "expand", "trunc", "halfCeil", "halfF
 const CALS: [&str; 6] = ["hebrew", "japanese", "gregory", "buddhist", "roc", "coptic"];
 // named zones are sampled between 1900 and 2035 only: later instants hit the provider's known post-2037 failure,
 // which panics while the process-wide provider lock is held (C15/C03/C20 subjects, not C19's)
-const ZONES: [&str; 10] = ["America/New_York", "Europe/London", "Asia/Kolkata", "Australia/Lord_Howe", "Asia/Tokyo", "America/Sao_Paulo",
-    "Africa/Cairo", "Pacific/Apia", "Europe/Amsterdam", "America/St_Johns"];
+// (44 zones, revisited at random: the process-wide provider behind the compiled-data wrappers keeps per-zone state across calls - more zones than a
+// small cache holds - while the core twin gets a fresh provider per call)
+const ZONES: [&str; 44] = ["America/New_York", "Europe/London", "Asia/Kolkata", "Australia/Lord_Howe", "Asia/Tokyo", "America/Sao_Paulo",
+    "Africa/Cairo", "Pacific/Apia", "Europe/Amsterdam", "America/St_Johns",
+    "Europe/Berlin", "Europe/Paris", "Europe/Moscow", "Asia/Shanghai", "Asia/Kathmandu", "Asia/Tehran", "Asia/Dubai", "Asia/Seoul", "Asia/Singapore", "Asia/Jakarta", "Asia/Karachi", "Asia/Dhaka", "Africa/Johannesburg", "Africa/Lagos", "Africa/Nairobi", "Africa/Casablanca", "America/Chicago",
+    "America/Denver", "America/Los_Angeles", "America/Anchorage", "America/Mexico_City", "America/Bogota", "America/Argentina/Buenos_Aires", "America/Santiago", "America/Caracas", "America/Halifax", "Pacific/Auckland", "Pacific/Honolulu", "Pacific/Chatham", "Pacific/Kiritimati", "Australia/Sydney", "Australia/Adelaide", "Atlantic/Reykjavik", "Europe/Dublin"];
 
 fn off_str(off: i64) -> String { format!("{}{:02}:{:02}", if off < 0 { "-" } else { "+" }, off.abs() / 3600, off.abs() % 3600 / 60) }
 fn subns(r: &mut Rng) -> i64 { match r.range(0, 4) { 0 => 0, 1 => 999_999_999, 2 => r.range(0, 999) * 1_000_000 + r.range(0, 999) * 1000 + r.range(0, 999), _ => r.range(0, 999_999_999) } }
